@@ -1,2 +1,973 @@
-"""BSI suites (registered with genlib.suite)."""
-from genlib import G, suite, U32, CH  # noqa: F401
+"""BSI suites (registered with genlib.suite): `bsi` (C19 update histories) and `bsiq` (C20 queries).
+
+The generator keeps its own column -> value model of every index it creates.  It needs it for two things only:
+to stay inside the documented domain (constants within the index's width, found-sets of existing columns,
+Increment/Add on non-negative values, ParOr on disjoint columns, Transpose on values that are column ids) and to
+aim at interesting constants (stored values +-1, extremes of the width).  Expected outputs are NOT produced here:
+they come from the Lean model.
+
+Known-defect switches.  The checker stops at the first mismatch, so a defect that fires early hides everything
+behind it.  Every trigger of a defect recorded in FINDINGS.md has a tag; tags listed in the environment variable
+BSI_AVOID (comma separated) - or all of them for the `*-clean` suites - are not generated.
+"""
+import os
+from genlib import G, suite  # noqa: F401
+
+U64 = 1 << 64
+U32 = 1 << 32
+I64MIN = -(1 << 63)
+I64MAX = (1 << 63) - 1
+
+# tag -> what is NOT generated when the tag is avoided.
+# CONFIRMED: every tag below hides the trigger of one defect recorded in FINDINGS.md (Fxx in brackets).
+CONFIRMED = [
+    "clone_neg",      # [F01] 64: Clone / NewBSIRetainSet of an index holding a negative value
+    "marsh_neg",      # [F02] 64: MarshalBinary/UnmarshalBinary of an index holding a negative value
+    "paror_neg",      # [F03] 64: ParOr when a participant holds a negative value
+    "paror32_multi",  # [F04] 32: ParOr with more than one participant
+    "paror_alias",    # [F05] 64: looking at a ParOr participant after the target was changed
+    "paror_runopt",   # [F06] 64: ParOr into a run-optimised index
+    "xor_share",      # [F07] 64: Increment/Add when columns span more than one high-32 bucket (roaring64.Xor shares containers)
+    "inc_neg",        # [F08] Increment/Add on an index that holds a negative value in an untouched column
+    "sum_wide",       # [F09] 64: Sum/SumBigValues when some per-plane partial sum count*2^plane reaches 2^63
+    "clr_alias",      # [F10] ClearValues(own existence bitmap)
+    "neg32",          # [F11] 32: negative values (64 planes)
+    "minmax32",       # [F12] 32: MinMax
+    "equals_width",   # [F13] 64: Equals between indexes holding the same map at different widths (negative values)
+]
+# plain feature switches (no defect behind them on the current tree; useful when bisecting)
+SWITCHES = [
+    "big_slow",       # 64: CompareValue/CompareBigValue on an index wider than 64 planes (per-column path)
+    "cmp_wide63",     # 64: compare on an index with exactly 63/64 planes
+    "twc",            # TransposeWithCounts
+    "inc_absent",     # Increment on a found-set containing absent columns
+    "fixed32_inc",    # 32: increment / add in a fixed-width index
+    "add_wide",       # Add/Increment that has to widen the index
+    "beq_cube",       # BatchEqual value lists that form a full cube
+    "range_rev",      # RANGE with start > end
+    "marsh_fixed",    # 64: MarshalBinary round trip of a fixed-width index
+    "cmpbsi",         # 64: CompareBSI
+    "runopt",         # RunOptimize on the index
+]
+KNOWN = CONFIRMED + SWITCHES
+# the `*-clean` suites avoid exactly the confirmed triggers: they must pass on the current /repo
+KNOWN_ACTIVE = CONFIRMED
+
+
+def env_avoid():
+    return set(x for x in os.environ.get("BSI_AVOID", "").split(",") if x)
+
+
+def blen64(v):
+    return max(1, abs(v).bit_length())
+
+
+def blen32(v):
+    return (v % U64).bit_length()
+
+
+class Idx:
+    def __init__(self, name, is64, fixed=None, profile="mixed"):
+        self.name = name
+        self.is64 = is64
+        self.fixed = fixed            # (max, min) or None
+        self.profile = profile
+        self.vals = {}
+        self.everneg = False
+        self.opt = False              # RunOptimize was called on this object
+        if fixed is None:
+            self.bc = 0
+        elif is64:
+            self.bc = max(abs(fixed[0]).bit_length(), abs(fixed[1]).bit_length())
+        else:
+            self.bc = max(blen32(fixed[0]), blen32(fixed[1]))
+
+    # -- width bookkeeping (a lower bound of Go's BitCount(); exact for Set*-only histories)
+    def note(self, v):
+        if v < 0:
+            self.everneg = True
+        if self.fixed is None:
+            self.bc = max(self.bc, blen64(v) if self.is64 else blen32(v))
+
+    def colbound(self):
+        return U64 if self.is64 else U32
+
+    def hasneg(self):
+        return any(v < 0 for v in self.vals.values())
+
+    def krange(self):
+        """inclusive range of comparison constants inside the documented domain"""
+        if self.fixed is not None:
+            return (self.fixed[1], self.fixed[0])
+        if self.is64:
+            return (-(1 << self.bc) + 1, (1 << self.bc) - 1)
+        if self.bc >= 64:
+            return (I64MIN, I64MAX)
+        return (0, (1 << self.bc) - 1)
+
+    def copy_as(self, name):
+        t = Idx(name, self.is64, self.fixed, self.profile)
+        t.vals = dict(self.vals)
+        t.bc = self.bc
+        t.everneg = self.everneg
+        return t
+
+
+PROFILES64 = ["small", "mixed", "mixed", "nonneg", "nonneg", "wide63", "big", "fixed", "fixed", "dup"]
+PROFILES32 = ["nonneg", "nonneg", "small0", "neg", "neg", "fixed", "wide", "dup"]
+FIXED64 = [(100, -100), (5, -5), (1000, 0), (-1, -100), ((1 << 31) - 1, -(1 << 31)), (I64MAX, I64MIN), (255, 1), (70000, -3)]
+FIXED32 = [(1000, 0), (5, -5), (-1, -100), (99, -1), (255, 1), ((1 << 40), 0), (I64MAX, 0)]
+
+
+class BG:
+    def __init__(self, g, avoid):
+        self.g = g
+        self.r = g.r
+        self.avoid = set(avoid)
+
+    def av(self, tag):
+        return tag in self.avoid
+
+    def emit(self, s):
+        self.g.emit(s)
+
+    # ------------------------------------------------------------------ values / columns
+    def newidx(self, is64=None, profile=None):
+        r = self.r
+        if is64 is None:
+            is64 = r.random() < 0.6
+        if profile is None:
+            profile = r.choice(PROFILES64 if is64 else PROFILES32)
+        if not is64 and profile == "neg" and self.av("neg32"):
+            profile = "nonneg"
+        name = self.g.fresh("s")
+        fixed = None
+        if profile == "fixed":
+            fixed = r.choice(FIXED64 if is64 else FIXED32)
+            if not is64 and fixed[1] < 0 and self.av("neg32"):
+                fixed = (1000, 0)
+            self.emit("bnew %s %s %d %d" % (name, "64" if is64 else "32", fixed[0], fixed[1]))
+        else:
+            self.emit("bnew %s %s" % (name, "64" if is64 else "32"))
+        self.g.count("idx:%s:%s" % ("64" if is64 else "32", profile))
+        return Idx(name, is64, fixed, profile)
+
+    def val(self, idx):
+        r = self.r
+        p = idx.profile
+        if idx.fixed is not None:
+            mx, mn = idx.fixed
+            c = r.random()
+            if c < 0.25:
+                return r.choice([mx, mn, mn + 1 if mn < mx else mn, mx - 1 if mn < mx else mx])
+            if c < 0.45 and mn <= 0 <= mx:
+                return r.choice([v for v in (0, 1, -1, 2, -2) if mn <= v <= mx])
+            if c < 0.6 and idx.vals:
+                return r.choice(list(idx.vals.values()))
+            return r.randint(mn, mx) if mx - mn < (1 << 20) or r.random() < 0.5 else max(mn, min(mx, r.choice([-3, 5, 70000, 1 << 20, -(1 << 20)])))
+        if p in ("small", "small0"):
+            lo = -8 if (idx.is64 and p == "small") else 0
+            return r.randint(lo, 8)
+        if p == "dup":
+            return r.choice([0, 1, 3, 3, 3, 7, 7, 100] if not idx.is64 else [0, 1, 3, 3, 3, -3, -3, 7, 100, -100])
+        if p == "nonneg":
+            return r.choice([0, 0, 1, 2, 3, 5, 7, 8, 15, 16, 255, 256, 70000, 65535, 65536, (1 << 31) - 1, 1 << 31,
+                             (1 << 32) - 1, 1 << 32, 1 << 40, r.randrange(1000), r.randrange(1 << 20)])
+        if p == "mixed":
+            return r.choice([0, 0, 1, -1, 2, -2, 3, -3, 5, -5, 7, -8, 8, 70000, -70000, 127, 128, -128, -129, 255, 256,
+                             (1 << 31) - 1, -(1 << 31), 1 << 32, 1 << 40, -(1 << 40), r.randint(-1000, 1000),
+                             r.randint(-(1 << 20), 1 << 20)])
+        if p == "wide63":
+            return r.choice([0, 1, -1, 5, -5, 1 << 61, (1 << 62) - 1, 1 << 62, (1 << 62) + 1, I64MAX, I64MAX - 1,
+                             I64MIN, I64MIN + 1, -(1 << 62), -(1 << 62) - 1, r.randint(I64MIN, I64MAX)])
+        if p == "big":
+            return r.choice([0, 1, -1, 5, -3, 70000, I64MAX, I64MIN, 1 << 63, -(1 << 63) - 1, 1 << 64, (1 << 64) - 1,
+                             -(1 << 64), 1 << 70, -(1 << 70) + 1, (1 << 80) + 12345, r.randint(-(1 << 72), 1 << 72)])
+        if p == "neg":      # 32-bit implementation with 64 planes
+            return r.choice([0, 1, -1, 2, -2, 5, -5, 100, -100, 70000, -70000, I64MAX, I64MIN, I64MIN + 1, I64MAX - 1,
+                             1 << 40, -(1 << 40), r.randint(-1000, 1000)])
+        if p == "wide":     # 32-bit implementation, non-negative up to 63 bits
+            return r.choice([0, 1, 5, 70000, 1 << 40, (1 << 62) - 1, 1 << 62, I64MAX, I64MAX - 1, r.randrange(1 << 63)])
+        raise ValueError(p)
+
+    def newcol(self, idx):
+        r = self.r
+        for _ in range(50):
+            if idx.is64:
+                c = r.choice([r.randrange(12), r.randrange(40), r.randrange(300), 65535, 65536, 65537, U32 - 1, U32, U32 + 5,
+                              1 << 40, 1 << 63, U64 - 1, U64 - 2, r.randrange(U64)])
+            else:
+                c = r.choice([r.randrange(12), r.randrange(40), r.randrange(300), 65535, 65536, 65537, U32 - 1, U32 - 2,
+                              r.randrange(U32)])
+            if c not in idx.vals:
+                return c
+        return max(idx.vals) + 1 if max(idx.vals) + 1 < idx.colbound() else min(set(range(1000)) - set(idx.vals))
+
+    def col(self, idx, pexist=0.5):
+        if idx.vals and self.r.random() < pexist:
+            return self.r.choice(list(idx.vals))
+        return self.newcol(idx)
+
+    def mkfs(self, idx, cols):
+        f = self.g.fresh("f")
+        self.emit("%s %s %s" % ("fs64" if idx.is64 else "fs32", f, " ".join(str(c) for c in cols)))
+        self.lastfs = (f, idx.is64)
+        return f
+
+    def fsdig(self):
+        """digest of the most recent found-set: an index operation must never change its argument"""
+        if getattr(self, "lastfs", None):
+            f, is64 = self.lastfs
+            self.emit("%s %s" % ("fsdig64" if is64 else "dig", f))
+
+    def subset(self, idx, pmin=0.2, pmax=0.8):
+        r = self.r
+        p = r.uniform(pmin, pmax)
+        return [c for c in sorted(idx.vals) if r.random() < p]
+
+    # ------------------------------------------------------------------ updates
+    def do_set(self, idx, c, v, big=None):
+        if big is None:
+            big = idx.is64 and (not (I64MIN <= v <= I64MAX) or self.r.random() < 0.25)
+        self.emit("%s %s %d %d" % ("bsetbig" if big else "bset", idx.name, c, v))
+        idx.vals[c] = v
+        idx.note(v)
+
+    def op_set(self, idx):
+        r = self.r
+        c = self.col(idx, 0.45)
+        v = self.val(idx)
+        cls = "set:new" if c not in idx.vals else ("set:narrower" if abs(v) < abs(idx.vals[c]) else "set:over")
+        if idx.fixed is None and (blen64(v) if idx.is64 else blen32(v)) > idx.bc:
+            cls += "+widen"
+        self.g.count(cls)
+        self.do_set(idx, c, v)
+
+    def op_setmany(self, idx):
+        r = self.r
+        cols = self.subset(idx, 0.1, 0.6) + [self.newcol(idx) for _ in range(r.choice([0, 0, 1, 2]))]
+        cols = sorted(set(cols))
+        if not cols:
+            cols = [self.newcol(idx)]
+        v = self.val(idx)
+        if idx.vals and r.random() < 0.1:
+            f = "@"                 # the index's own existence bitmap: every stored column := v
+            cols = list(idx.vals)
+            self.g.count("setmany:own")
+        else:
+            f = self.mkfs(idx, cols)
+        big = idx.is64 and (not (I64MIN <= v <= I64MAX) or r.random() < 0.25)
+        self.emit("%s %s %s %d" % ("bsetmanybig" if big else "bsetmany", idx.name, f, v))
+        for c in cols:
+            idx.vals[c] = v
+        idx.note(v)
+        self.g.count("setmany")
+
+    def op_clr(self, idx):
+        r = self.r
+        if idx.vals and r.random() < 0.04 and not self.av("clr_alias"):
+            self.emit("bclr %s @" % idx.name)
+            idx.vals.clear()
+            self.g.count("clr:alias")
+            return
+        cols = self.subset(idx, 0.1, 0.5)
+        extra = [self.newcol(idx) for _ in range(r.choice([0, 0, 1]))]
+        f = self.mkfs(idx, sorted(set(cols + extra)))
+        self.emit("bclr %s %s" % (idx.name, f))
+        for c in cols:
+            idx.vals.pop(c, None)
+        self.g.count("clr")
+
+    def op_retain(self, idx):
+        r = self.r
+        if not idx.is64:
+            return self.op_clr(idx)
+        if r.random() < 0.15:
+            tok = "@"
+            cols = list(idx.vals)
+        else:
+            cols = self.subset(idx, 0.4, 1.0)
+            extra = [self.newcol(idx) for _ in range(r.choice([0, 0, 1]))]
+            tok = self.mkfs(idx, sorted(set(cols + extra)))
+        self.emit("bretain %s %s" % (idx.name, tok))
+        idx.vals = {c: idx.vals[c] for c in cols}
+        self.g.count("retain")
+
+    def inc_ok(self, idx, targets, addend):
+        """Increment/Add domain: touched values (absent = 0) and addends non-negative, result inside the range"""
+        if idx.hasneg() and self.av("inc_neg"):
+            return False
+        if not idx.is64 and idx.fixed is not None and self.av("fixed32_inc"):
+            return False
+        if idx.is64 and self.av("xor_share") and len({c >> 32 for c in list(idx.vals) + list(targets)}) > 1:
+            return False
+        for c in targets:
+            v = idx.vals.get(c, 0)
+            if v < 0:
+                return False
+            nv = v + addend.get(c, 1)
+            if idx.fixed is not None and not (idx.fixed[1] <= nv <= idx.fixed[0]):
+                return False
+            if not idx.is64 and nv > I64MAX:
+                return False
+            if idx.fixed is None and self.av("add_wide") and (blen64(nv) if idx.is64 else blen32(nv)) > idx.bc:
+                return False
+            if c not in idx.vals and idx.fixed is not None and not (idx.fixed[1] <= 0):
+                return False
+        return True
+
+    def op_inc(self, idx):
+        r = self.r
+        if not idx.vals:
+            return False
+        c = c0 = r.random()
+        if c < 0.3:
+            targets = list(idx.vals)
+            if not self.inc_ok(idx, targets, {}):
+                return False
+            self.emit(r.choice(["bincall %s", "binc %s -", "binc %s @"]) % idx.name)
+            self.g.count("inc:all")
+        else:
+            targets = self.subset(idx, 0.2, 0.7)
+            if r.random() < 0.2 and not self.av("inc_absent"):
+                targets.append(self.newcol(idx))
+                self.g.count("inc:absent")
+            if not targets or not self.inc_ok(idx, targets, {}):
+                return False
+            f = self.mkfs(idx, sorted(targets))
+            self.emit("binc %s %s" % (idx.name, f))
+            self.g.count("inc:set")
+            post = f
+        for c in targets:
+            idx.vals[c] = idx.vals.get(c, 0) + 1
+            idx.note(idx.vals[c])
+        if c0 >= 0.3 and r.random() < 0.6:
+            c = r.choice(targets)
+            v = r.choice([0, 2, 4, 6, 70000])
+            if idx.fixed is None or idx.fixed[1] <= v <= idx.fixed[0]:
+                self.do_set(idx, c, v, big=False)
+                self.fsdig()
+        return True
+
+    def op_add(self, idx):
+        r = self.r
+        t = Idx(self.g.fresh("s"), idx.is64, None, "nonneg")
+        cols = self.subset(idx, 0.2, 0.6) + [self.newcol(idx) for _ in range(r.choice([0, 1, 2]))]
+        cols = sorted(set(cols))
+        if not cols:
+            return False
+        addend = {}
+        for c in cols:
+            addend[c] = r.choice([0, 1, 1, 2, 3, 5, 7, 8, 100, 255, 256, 70000, 1 << 20, 1 << 33])
+            if idx.fixed is not None:
+                addend[c] = r.choice([0, 1, 1, 2, 3])
+        if not self.inc_ok(idx, cols, addend):
+            return False
+        self.emit("bnew %s %s" % (t.name, "64" if idx.is64 else "32"))
+        for c in cols:
+            self.do_set(t, c, addend[c], big=False)
+        self.emit("badd %s %s" % (idx.name, t.name))
+        for c in cols:
+            idx.vals[c] = idx.vals.get(c, 0) + addend[c]
+            idx.note(idx.vals[c])
+        self.emit("bdump %s" % t.name)
+        if r.random() < 0.6:
+            c = r.choice(cols)
+            v = self.val(idx)
+            if v >= 0 or not self.av("inc_neg"):
+                self.do_set(idx, c, v)
+                self.emit("bdump %s" % t.name)
+        self.g.count("add")
+        return True
+
+    def op_paror(self, idx):
+        r = self.r
+        n = r.choice([1, 1, 2, 3])
+        if idx.is64 and idx.opt and self.av("paror_runopt"):
+            return False
+        if not idx.is64 and self.av("paror32_multi"):
+            n = 1
+        ts = []
+        used = set(idx.vals)
+        for _ in range(n):
+            t = Idx(self.g.fresh("s"), idx.is64, None, idx.profile)
+            t.fixed = None
+            self.emit("bnew %s %s" % (t.name, "64" if idx.is64 else "32"))
+            for _ in range(r.choice([0, 1, 2, 3, 5])):
+                tmp = Idx("", idx.is64)
+                tmp.vals = dict.fromkeys(used)
+                c = self.newcol(tmp)
+                used.add(c)
+                v = self.val(idx)
+                self.do_set(t, c, v, big=None)
+            ts.append(t)
+        if self.av("paror_neg") and idx.is64 and (idx.hasneg() or any(t.hasneg() for t in ts)):
+            return False
+        if self.av("neg32") and not idx.is64 and any(t.hasneg() for t in ts):
+            return False
+        self.emit("bparor %s %d %s" % (idx.name, r.choice([0, 1, 2, 7]), " ".join(t.name for t in ts)))
+        for t in ts:
+            idx.vals.update(t.vals)
+            if idx.fixed is None:
+                idx.bc = max(idx.bc, t.bc)
+            idx.everneg = idx.everneg or t.everneg
+        self.g.count("paror:%d" % n)
+        if not self.av("paror_alias"):
+            # independence: change the target on a column that came from a participant, look at the participant
+            cand = [t for t in ts if t.vals]
+            if cand and r.random() < 0.7:
+                t = r.choice(cand)
+                c = r.choice(list(t.vals))
+                self.do_set(idx, c, self.val(idx))
+                self.emit("bdump %s" % t.name)
+                self.g.count("paror:crosscheck")
+        return True
+
+    def op_copy(self, idx):
+        """returns the copy (an Idx) or None"""
+        r = self.r
+        kinds = ["clone", "retainset", "marsh"] + (["stream"] if idx.is64 else [])
+        k = r.choice(kinds)
+        if idx.is64 and idx.hasneg():
+            if k in ("clone", "retainset") and self.av("clone_neg"):
+                return None
+            if k == "marsh" and self.av("marsh_neg"):
+                return None
+        if idx.is64 and idx.fixed is not None and k == "marsh" and self.av("marsh_fixed"):
+            return None
+        t = idx.copy_as(self.g.fresh("s"))
+        if k == "clone":
+            self.emit("bclone %s %s" % (t.name, idx.name))
+        elif k == "retainset":
+            if r.random() < 0.3:
+                tok = "@"
+                cols = list(idx.vals)
+            else:
+                cols = self.subset(idx, 0.3, 1.0)
+                tok = self.mkfs(idx, sorted(set(cols + [self.newcol(idx)])) if r.random() < 0.3 else cols)
+            self.emit("bretainset %s %s %s" % (t.name, idx.name, tok))
+            t.vals = {c: idx.vals[c] for c in cols}
+        elif k == "marsh":
+            self.emit("bmarsh %s %s" % (t.name, idx.name))
+        else:
+            self.emit("bstream %s %s" % (t.name, idx.name))
+        self.g.count("copy:" + k)
+        self.emit("bdump %s" % t.name)
+        if idx.is64 and k != "retainset":
+            self.emit("bequals %s %s" % (idx.name, t.name))
+            self.emit("bequals %s %s" % (t.name, idx.name))
+        # independence: change the copy, look at the original (and vice versa)
+        c = self.col(t, 0.5)
+        self.do_set(t, c, self.val(t))
+        self.emit("bdump %s" % idx.name)
+        if idx.is64 and r.random() < 0.5:
+            self.emit("bequals %s %s" % (idx.name, t.name))
+        if r.random() < 0.5:
+            # and the other way round: change the original, look at the copy
+            c = self.col(idx, 0.7)
+            self.do_set(idx, c, self.val(idx))
+            self.emit("bdump %s" % t.name)
+        return t
+
+    def op_rebuild_equal(self, idx):
+        """an independently built index holding the same map (possibly at another width) must be Equal"""
+        r = self.r
+        if not idx.is64 or idx.fixed is not None or not idx.vals or len(idx.vals) > 12:
+            return
+        if idx.hasneg() and self.av("equals_width"):
+            return
+        t = Idx(self.g.fresh("s"), True, None, idx.profile)
+        self.emit("bnew %s 64" % t.name)
+        cols = sorted(idx.vals)
+        if r.random() < 0.5:
+            self.do_set(t, cols[0], self.val(idx))      # history: some other (maybe wider) value first
+        for c in cols:
+            self.do_set(t, c, idx.vals[c])
+        self.emit("bequals %s %s" % (idx.name, t.name))
+        self.emit("bequals %s %s" % (t.name, idx.name))
+        self.g.count("equals:rebuilt")
+
+    def check(self, idx, full=False):
+        r = self.r
+        s = idx.name
+        self.emit("bdump %s" % s)
+        if r.random() < 0.5:
+            self.fsdig()
+        if r.random() < 0.5 or full:
+            self.emit("bchk %s" % s)
+            self.emit("bcard %s" % s)
+        cols = sorted(idx.vals)
+        if len(cols) > 10 and not full:
+            cols = r.sample(cols, 10)
+        absent = [self.newcol(idx) for _ in range(2)]
+        for c in cols + absent:
+            v = idx.vals.get(c)
+            if idx.is64 and (r.random() < 0.4 or (v is not None and not (I64MIN <= v <= I64MAX) and r.random() < 0.9)):
+                self.emit("bgetbig %s %d" % (s, c))
+            else:
+                self.emit("bget %s %d" % (s, c))
+        if r.random() < 0.5:
+            self.emit("bexists %s %d" % (s, r.choice(cols + absent)))
+        if idx.is64:
+            q = [r.choice(cols + absent) for _ in range(r.choice([0, 1, 2, 3, 5, 9]))]
+            if r.random() < 0.5 and q:
+                q.append(q[0])      # duplicate request
+            allint = all(I64MIN <= idx.vals.get(c, 0) <= I64MAX for c in q)
+            if allint and r.random() < 0.6:
+                self.emit("bgets %s %s" % (s, " ".join(map(str, q))))
+            else:
+                self.emit("bgetsbig %s %s" % (s, " ".join(map(str, q))))
+
+    # ------------------------------------------------------------------ C19 episode
+    def episode_updates(self, nsteps, is64=None):
+        r = self.r
+        idx = self.newidx(is64)
+        ops = ["set"] * 10 + ["setmany"] * 2 + ["clr"] * 2 + ["retain", "inc", "inc", "add", "paror", "copy", "copy", "eqr", "opt"]
+        since = 0
+        for _ in range(nsteps):
+            o = r.choice(ops)
+            if o == "opt":
+                if not self.av("runopt"):
+                    self.emit("bopt %s" % idx.name)
+                    idx.opt = True
+                    self.g.count("runopt")
+            elif o == "eqr":
+                self.op_rebuild_equal(idx)
+                if r.random() < 0.3 and not self.av("runopt"):
+                    self.emit("bopt %s" % idx.name)
+                    idx.opt = True
+                    self.g.count("runopt")
+            elif o == "set":
+                self.op_set(idx)
+            elif o == "setmany":
+                self.op_setmany(idx)
+            elif o == "clr":
+                self.op_clr(idx)
+            elif o == "retain":
+                self.op_retain(idx)
+            elif o == "inc":
+                if not self.op_inc(idx):
+                    self.op_set(idx)
+            elif o == "add":
+                if not self.op_add(idx):
+                    self.op_set(idx)
+            elif o == "paror":
+                if not self.op_paror(idx):
+                    self.op_set(idx)
+            elif o == "copy":
+                t = self.op_copy(idx)
+                if t is not None and r.random() < 0.5:
+                    idx = t          # continue the history on the copy
+            since += 1
+            if since >= r.choice([2, 3, 4, 5]):
+                self.check(idx)
+                since = 0
+        self.check(idx, full=True)
+        self.emit("bbits %s" % idx.name)
+        return idx
+
+    # ------------------------------------------------------------------ C20
+    def consts(self, idx, intonly):
+        r = self.r
+        lo, hi = idx.krange()
+        if intonly:
+            lo, hi = max(lo, I64MIN), min(hi, I64MAX)
+        pool = [0, 1, -1, lo, hi, lo + 1, hi - 1]
+        for v in idx.vals.values():
+            pool += [v, v - 1, v + 1]
+        pool.append(r.randint(lo, hi))
+        pool = [k for k in pool if lo <= k <= hi]
+        return pool or [lo]
+
+    def fstokens(self, idx):
+        """found-set tokens over existing columns: nil, own, all, random subset, singleton"""
+        r = self.r
+        cols = sorted(idx.vals)
+        toks = [("-", cols), ("@", cols)]
+        toks.append((self.mkfs(idx, cols), cols))
+        sub = [c for c in cols if r.random() < 0.5]
+        toks.append((self.mkfs(idx, sub), sub))
+        if cols:
+            one = [r.choice(cols)]
+            toks.append((self.mkfs(idx, one), one))
+            sub2 = [c for c in cols if r.random() < 0.3]
+            toks.append((self.mkfs(idx, sub2), sub2))
+        return toks
+
+    def build_dense(self, idx):
+        """several thousand consecutive columns (bitmap / run containers inside the planes), few distinct values"""
+        r = self.r
+        n = r.choice([4097, 5000, 6000])
+        base = r.choice([0, 65536 - 100, 3 * 65536] + ([U32 - 3000, 1 << 40] if idx.is64 else [U32 - n]))
+        cuts = sorted(set([0, n] + [r.randrange(n) for _ in range(r.choice([2, 3, 5]))]))
+        for lo, hi in zip(cuts, cuts[1:]):
+            v = self.val(idx)
+            f = self.g.fresh("f")
+            self.emit("%s %s %d %d" % ("fsr64" if idx.is64 else "fsr32", f, base + lo, base + hi))
+            self.emit("bsetmany %s %s %d" % (idx.name, f, v) if I64MIN <= v <= I64MAX else "bsetmanybig %s %s %d" % (idx.name, f, v))
+            for c in range(base + lo, base + hi):
+                idx.vals[c] = v
+            idx.note(v)
+        for _ in range(r.choice([3, 10, 30])):
+            self.do_set(idx, base + r.randrange(n), self.val(idx), big=None)
+        self.g.count("map:dense")
+
+    def build_map(self, idx, shape):
+        r = self.r
+        if shape == "dense":
+            return self.build_dense(idx)
+        n = {"empty": 0, "single": 1, "few": r.randint(2, 6), "some": r.randint(7, 20), "many": r.randint(30, 70)}[shape]
+        for _ in range(n):
+            self.do_set(idx, self.newcol(idx), self.val(idx), big=None)
+        # a few overwrites (narrower values after wide ones) so that the planes have history
+        for _ in range(min(n, r.choice([0, 1, 3]))):
+            self.do_set(idx, r.choice(list(idx.vals)), self.val(idx), big=None)
+        if n > 3 and r.random() < 0.3:
+            cols = self.subset(idx, 0.1, 0.3)
+            if cols:
+                f = self.mkfs(idx, cols)
+                self.emit("bclr %s %s" % (idx.name, f))
+                for c in cols:
+                    idx.vals.pop(c)
+        self.g.count("map:" + shape)
+
+    def after_bitmap_result(self, idx, rname):
+        """mutate the returned bitmap, then show the index is unchanged"""
+        r = self.r
+        if r.random() < 0.35:
+            cols = list(idx.vals)
+            picks = r.sample(cols, min(len(cols), 3)) + [self.newcol(idx)]
+            self.emit("%s %s %s" % ("fsflip64" if idx.is64 else "fsflip32", rname, " ".join(map(str, picks))))
+            self.emit("bdump %s" % idx.name)
+            if r.random() < 0.5:
+                self.emit("bchk %s" % idx.name)
+            self.g.count("indep")
+
+    def q_cmp(self, idx, toks):
+        r = self.r
+        op = r.choice(["LT", "LE", "EQ", "GE", "GT", "RANGE", "RANGE"])
+        wide = idx.is64 and idx.bc > 63
+        if wide and self.av("big_slow"):
+            return
+        if idx.is64 and idx.bc in (63, 64) and self.av("cmp_wide63"):
+            return
+        big = idx.is64 and (r.random() < 0.3)
+        ks = self.consts(idx, not big)
+        k = r.choice(ks)
+        k2 = r.choice(ks)
+        if op == "RANGE" and k > k2 and (r.random() < 0.9 or self.av("range_rev")):
+            k, k2 = k2, k
+        tok, _ = r.choice(toks)
+        w = r.choice([0, 1, 2, 7])
+        rn = self.g.fresh("r")
+        args = "%d %d" % (k, k2) if op == "RANGE" else "%d" % k
+        self.emit("%s %s %s %d %s %s %s" % ("bcmpbig" if big else "bcmp", rn, idx.name, w, op, args, tok))
+        self.g.count("cmp:%s:%s:%s" % ("64" if idx.is64 else "32", op, {"-": "nil", "@": "own"}.get(tok, "set")))
+        self.g.count("workers:%d" % w)
+        self.after_bitmap_result(idx, rn)
+
+    def q_cmpbsi(self, idx, other, toks):
+        r = self.r
+        if self.av("cmpbsi"):
+            return
+        op = r.choice(["LT", "LE", "EQ", "GE", "GT"])
+        tok, _ = r.choice(toks)
+        rn = self.g.fresh("r")
+        self.emit("bcmpbsi %s %s %s %s %s" % (rn, idx.name, op, other.name, tok))
+        self.g.count("cmpbsi:" + op)
+        self.after_bitmap_result(idx, rn)
+
+    def q_beq(self, idx, toks):
+        r = self.r
+        lo, hi = idx.krange()
+        stored = list(idx.vals.values())
+        c = r.random()
+        if c < 0.2 and not self.av("beq_cube"):
+            # a full cube: all combinations of a few bit positions on top of a base value
+            base = r.choice(stored) if stored else 0
+            nb = r.choice([1, 2, 3])
+            bits = r.sample(range(max(1, min(idx.bc, 62))), min(nb, max(1, min(idx.bc, 62))))
+            vs = []
+            for m in range(1 << len(bits)):
+                v = base
+                for i, b in enumerate(bits):
+                    v = (v | (1 << b)) if (m >> i) & 1 else (v & ~(1 << b))
+                vs.append(v)
+            cls = "cube"
+        elif c < 0.3 and idx.bc <= 6 and idx.fixed is None:
+            vs = list(range(lo, hi + 1))
+            cls = "allvalues"
+        else:
+            vs = [r.choice(stored) for _ in range(r.choice([1, 1, 2, 3, 5]))] if stored else []
+            vs += [r.choice(self.consts(idx, False)) for _ in range(r.choice([0, 1, 2, 4]))]
+            if vs and r.random() < 0.3:
+                vs.append(vs[0])
+            cls = "list"
+        vs = [v for v in vs if lo <= v <= hi]
+        r.shuffle(vs)
+        intonly = all(I64MIN <= v <= I64MAX for v in vs)
+        w = r.choice([0, 1, 2, 7])
+        kind = r.random()
+        if idx.is64 and intonly and kind < 0.3 and vs:
+            tok, _ = r.choice(toks)
+            self.emit("beqvals %s %d %s %s" % (idx.name, w, tok, " ".join(map(str, vs))))
+            self.g.count("beqvals:" + cls)
+            return
+        rn = self.g.fresh("r")
+        if idx.is64 and (not intonly or kind < 0.55):
+            self.emit("beqbig %s %s %d %s" % (rn, idx.name, w, " ".join(map(str, vs))))
+            self.g.count("beqbig:" + cls)
+        else:
+            self.emit("beq %s %s %d %s" % (rn, idx.name, w, " ".join(map(str, vs))))
+            self.g.count("beq:%s:%s" % ("64" if idx.is64 else "32", cls))
+        self.after_bitmap_result(idx, rn)
+
+    def q_minmax(self, idx, toks):
+        r = self.r
+        if not idx.is64 and self.av("minmax32"):
+            return
+        cands = [(t, c) for (t, c) in toks if c]
+        if not cands:
+            return
+        tok, cols = r.choice(cands)
+        op = r.choice(["MIN", "MAX"])
+        w = r.choice([0, 1, 2, 7])
+        vals = [idx.vals[c] for c in cols]
+        ext = min(vals) if op == "MIN" else max(vals)
+        if idx.is64 and (not (I64MIN <= ext <= I64MAX) or r.random() < 0.4):
+            self.emit("bminmaxbig %s %d %s %s" % (idx.name, w, op, tok))
+        else:
+            self.emit("bminmax %s %d %s %s" % (idx.name, w, op, tok))
+        self.g.count("minmax:%s:%s" % ("64" if idx.is64 else "32", op))
+
+    def q_sum(self, idx, toks):
+        r = self.r
+        tok, cols = r.choice(toks)
+        if idx.is64 and self.av("sum_wide") and (max(1, len(cols)) << idx.bc) >= (1 << 63):
+            return
+        total = sum(idx.vals[c] for c in cols)
+        if idx.is64 and (not (I64MIN <= total <= I64MAX) or r.random() < 0.4):
+            self.emit("bsumbig %s %s" % (idx.name, tok))
+        elif I64MIN <= total <= I64MAX:
+            self.emit("bsum %s %s" % (idx.name, tok))
+        self.g.count("sum:%s" % ("64" if idx.is64 else "32"))
+
+    def q_trans(self, idx, toks):
+        r = self.r
+        bound = min(idx.colbound() - 1, I64MAX)
+        if not all(0 <= v <= bound for v in idx.vals.values()):
+            return
+        w = r.choice([0, 1, 2, 7])
+        c = r.random()
+        if c < 0.3:
+            rn = self.g.fresh("r")
+            self.emit("btrans %s %s" % (rn, idx.name))
+            self.g.count("trans")
+            self.after_bitmap_result(idx, rn)
+        elif c < 0.6:
+            rn = self.g.fresh("r")
+            tok, _ = r.choice(toks)
+            self.emit("bitrans %s %s %d %s" % (rn, idx.name, w, tok))
+            self.g.count("itrans")
+            self.after_bitmap_result(idx, rn)
+        elif not self.av("twc"):
+            tn = self.g.fresh("s")
+            tok, _ = r.choice(toks)
+            if idx.is64:
+                gk = r.random()
+                if gk < 0.25:
+                    gt = "-"
+                elif gk < 0.4:
+                    gt = "@"
+                else:
+                    vs = sorted(set(idx.vals.values()))
+                    pick = [v for v in vs if r.random() < 0.7] + [r.randrange(100)]
+                    gt = self.g.fresh("f")
+                    self.emit("fs64 %s %s" % (gt, " ".join(map(str, sorted(set(pick))))))
+            else:
+                gt = "-"
+            self.emit("btwc %s %s %d %s %s" % (tn, idx.name, w, tok, gt))
+            self.emit("bdump %s" % tn)
+            self.g.count("twc:%s" % ("64" if idx.is64 else "32"))
+
+    def episode_queries(self, nq):
+        r = self.r
+        if r.random() < 0.15:
+            idx = self.episode_updates(r.choice([6, 12]))      # a state reached through a mixed update history
+            self.g.count("map:history")
+        else:
+            idx = self.newidx()
+            shape = r.choice(["empty", "single", "few", "few", "some", "some", "many", "many", "dense"])
+            self.build_map(idx, shape)
+            if r.random() < 0.15 and not self.av("runopt"):
+                self.emit("bopt %s" % idx.name)
+                idx.opt = True
+                self.g.count("runopt")
+        self.emit("bdump %s" % idx.name)
+        self.emit("bbits %s" % idx.name)
+        toks = self.fstokens(idx)
+        other = None
+        if idx.is64:
+            other = self.newidx(True)
+            # overlapping columns, partly equal values
+            base_cols = list(idx.vals)
+            if len(base_cols) > 100:
+                # dense map: a range set in one go plus a sample of single columns
+                lo = min(base_cols)
+                f = self.g.fresh("f")
+                a, z = lo + r.randrange(50), lo + 1000 + r.randrange(3000)
+                v = self.val(other)
+                self.emit("fsr64 %s %d %d" % (f, a, z))
+                self.emit("bsetmany %s %s %d" % (other.name, f, v) if I64MIN <= v <= I64MAX else "bsetmanybig %s %s %d" % (other.name, f, v))
+                for c in range(a, z):
+                    other.vals[c] = v
+                other.note(v)
+                base_cols = r.sample(base_cols, 40)
+            for c in base_cols:
+                if r.random() < 0.7:
+                    v = idx.vals[c] if r.random() < 0.3 else self.val(other)
+                    if other.fixed is not None:
+                        v = self.val(other)
+                    self.do_set(other, c, v, big=None)
+            for _ in range(r.choice([0, 1, 3])):
+                self.do_set(other, self.newcol(other), self.val(other), big=None)
+            self.emit("bdump %s" % other.name)
+        qs = ["cmp"] * 8 + ["beq"] * 3 + ["minmax"] * 2 + ["sum"] * 2 + ["trans"] * 2 + (["cmpbsi"] * 2 if other else [])
+        for _ in range(nq):
+            q = r.choice(qs)
+            if q == "cmp":
+                self.q_cmp(idx, toks)
+            elif q == "cmpbsi":
+                self.q_cmpbsi(idx, other, toks)
+            elif q == "beq":
+                self.q_beq(idx, toks)
+            elif q == "minmax":
+                self.q_minmax(idx, toks)
+            elif q == "sum":
+                self.q_sum(idx, toks)
+            elif q == "trans":
+                self.q_trans(idx, toks)
+        self.emit("bdump %s" % idx.name)
+        self.emit("bchk %s" % idx.name)
+
+
+@suite("bsi")
+def _bsi(g, scale):
+    b = BG(g, env_avoid())
+    for _ in range(int(40 * scale)):
+        b.episode_updates(g.r.choice([8, 15, 25]))
+
+
+@suite("bsiq")
+def _bsiq(g, scale):
+    b = BG(g, env_avoid())
+    for _ in range(int(30 * scale)):
+        b.episode_queries(g.r.choice([15, 30, 45]))
+
+
+@suite("bsi-clean")
+def _bsi_clean(g, scale):
+    b = BG(g, set(KNOWN_ACTIVE) | env_avoid())
+    for _ in range(int(40 * scale)):
+        b.episode_updates(g.r.choice([8, 15, 25]))
+
+
+@suite("bsiq-clean")
+def _bsiq_clean(g, scale):
+    b = BG(g, set(KNOWN_ACTIVE) | env_avoid())
+    for _ in range(int(30 * scale)):
+        b.episode_queries(g.r.choice([15, 30, 45]))
+
+
+
+def _exhaustive(g, b, is64, bc, neg, ncols, fixed=None):
+    """one small map, every operator x every constant of the range (RANGE: every ordered pair)"""
+    r = g.r
+    idx = b.newidx(is64, "small")
+    lo, hi = (-(1 << bc) + 1, (1 << bc) - 1) if neg else (0, (1 << bc) - 1)
+    if fixed is not None:
+        lo, hi = fixed[1], fixed[0]
+    for c in range(ncols):
+        v = r.randint(lo, hi)
+        if c == 0:
+            v = hi          # make sure the width is reached
+        if c == 1 and neg:
+            v = lo
+        b.do_set(idx, c * 3 + 1, v, big=False)
+    g.emit("bdump %s" % idx.name)
+    g.emit("bbits %s" % idx.name)
+    klo, khi = idx.krange()
+    if not is64 and idx.bc >= 64:
+        klo, khi = lo - 1, hi + 1        # 64 planes: every int64 is in range; stay near the stored values
+    sub_cols = [c for c in sorted(idx.vals) if r.random() < 0.6]
+    sub = b.mkfs(idx, sub_cols)
+    for tok in ("-", sub):
+        for op in ("LT", "LE", "EQ", "GE", "GT"):
+            for k in range(klo, khi + 1):
+                g.emit("bcmp %s %s 1 %s %d %s" % (g.fresh("r"), idx.name, op, k, tok))
+                g.count("x:%s:%s" % ("64" if is64 else "32", op))
+        for k in range(klo, khi + 1):
+            for k2 in range(k, khi + 1):
+                g.emit("bcmp %s %s 2 RANGE %d %d %s" % (g.fresh("r"), idx.name, k, k2, tok))
+                g.count("x:%s:RANGE" % ("64" if is64 else "32"))
+        if True:
+            nonempty = tok == "-" or bool(sub_cols)
+            if nonempty and (is64 or not b.av("minmax32")):
+                g.emit("bminmax %s 1 MIN %s" % (idx.name, tok))
+                g.emit("bminmax %s 2 MAX %s" % (idx.name, tok))
+        g.emit("bsum %s %s" % (idx.name, tok))
+    for k in range(klo, khi + 1):
+        g.emit("beq %s %s 1 %d" % (g.fresh("r"), idx.name, k))
+        g.emit("beq %s %s 2 %d %d" % (g.fresh("r"), idx.name, k, min(khi, k + 1)))
+    g.emit("bdump %s" % idx.name)
+
+
+def _exhaustive_big(g, b, base, ncols):
+    """64-bit index wider than int64: stored values around `base`, constants = stored +-1, extremes, small"""
+    r = g.r
+    idx = b.newidx(True, "big")
+    vals = [base + d for d in (-2, -1, 0, 1, 2)] + [0, -1, 5, -base]
+    r.shuffle(vals)
+    for c, v in enumerate(vals[:ncols]):
+        b.do_set(idx, c * 5 + 2, v)
+    g.emit("bdump %s" % idx.name)
+    g.emit("bbits %s" % idx.name)
+    lo, hi = idx.krange()
+    ks = sorted(set([0, 1, -1, lo, hi, lo + 1, hi - 1] + [v + d for v in idx.vals.values() for d in (-1, 0, 1)]))
+    ks = [k for k in ks if lo <= k <= hi]
+    sub = b.mkfs(idx, [c for c in sorted(idx.vals) if r.random() < 0.6])
+    if not b.av("big_slow"):
+        for tok in ("-", sub, "@"):
+            for op in ("LT", "LE", "EQ", "GE", "GT"):
+                for k in ks:
+                    big = not (I64MIN <= k <= I64MAX) or r.random() < 0.5
+                    g.emit("%s %s %s %d %s %d %s" % ("bcmpbig" if big else "bcmp", g.fresh("r"), idx.name, r.choice([0, 1, 2, 7]), op, k, tok))
+                    g.count("xbig:" + op)
+            for i, k in enumerate(ks):
+                for k2 in ks[i:]:
+                    if r.random() < 0.5:
+                        g.emit("bcmpbig %s %s %d RANGE %d %d %s" % (g.fresh("r"), idx.name, r.choice([1, 2]), k, k2, tok))
+                        g.count("xbig:RANGE")
+    g.emit("bminmaxbig %s 1 MIN -" % idx.name)
+    g.emit("bminmaxbig %s 2 MAX -" % idx.name)
+    if not b.av("sum_wide"):
+        g.emit("bsumbig %s -" % idx.name)
+    for k in ks:
+        g.emit("beqbig %s %s 1 %d" % (g.fresh("r"), idx.name, k))
+    g.emit("bdump %s" % idx.name)
+
+
+@suite("bsix")
+def _bsix(g, scale):
+    """exhaustive tiny cases (C20): all operators x all constants in range, both implementations"""
+    b = BG(g, env_avoid())
+    for is64 in (True, False):
+        for bc in (1, 2, 3):
+            for neg in (False, True):
+                if not is64 and neg and b.av("neg32"):
+                    continue
+                for ncols in (1, 4):
+                    _exhaustive(g, b, is64, bc, neg, ncols)
+    for base in (1 << 62, 1 << 63, 1 << 64, -(1 << 64), (1 << 70) + 3):
+        for ncols in (1, 5, 9):
+            _exhaustive_big(g, b, base, ncols)
